@@ -165,7 +165,7 @@ func c09Case(rt *rapid.T, rec *vt.Rec) {
 	n := rapid.IntRange(3, 16).Draw(rt, "steps")
 	shared := false // some connection carries a host that did not open it: the directed race rules (written for one host per connection) are left out from then on
 	for k := 0; k < n; k++ {
-		op := rapid.SampledFrom([]string{"connect", "connect", "close", "close", "probe", "closeDuring", "reregDuring", "failedReconnect", "reconnectRace", "advance", "closeDuringConnect", "closeWithStoreFault", "closeWhileOwnRequest", "connectOnExisting", "connectOnExisting", "connectOnForeign", "connectOnForeign"}).Draw(rt, "op")
+		op := rapid.SampledFrom([]string{"connect", "connect", "close", "close", "probe", "closeDuring", "reregDuring", "failedReconnect", "reconnectRace", "advance", "closeDuringConnect", "closeWithStoreFault", "closeWhileOwnRequest", "connectOnExisting", "connectOnExisting", "connectOnForeign", "connectOnForeign", "becomeClient"}).Draw(rt, "op")
 		if shared {
 			switch op {
 			case "connect", "close", "probe", "advance", "connectOnExisting", "connectOnForeign":
@@ -343,6 +343,29 @@ func c09Case(rt *rapid.T, rec *vt.Rec) {
 			classes["second-identity-on-a-connection"] = true
 			shared = true
 			logf("host %s registers over conn#%d, opened by host %s (its current before: conn#%d, live: %v)", s.agents[h].id.name, ac.id, s.agents[o].id.name, cur, isLive)
+		case "becomeClient":
+			// a host comes back as a light client (the operator switched the node to light mode), over its current
+			// connection or a new one: it is no connected host any more, whatever its earlier connections do
+			var live []int
+			for i := 0; i < nHosts; i++ {
+				if _, ok := s.model.liveHost(s.agents[i].id.nodeID); ok {
+					live = append(live, i)
+				}
+			}
+			if len(live) == 0 || shared {
+				continue
+			}
+			h := rapid.SampledFrom(live).Draw(rt, "hostTurningClient")
+			ac := s.agents[h].lastConn()
+			if ac == nil || !ac.open || rapid.Bool().Draw(rt, "overNewConn") {
+				ac = s.openConn(h, "")
+			}
+			s.model.connect(s.agents[h].id.nodeID, ac.id, false, "geth", "")
+			if err := s.connect(h, ac, false, "geth", ""); err != nil {
+				fail("host %s re-registers as a light client over conn#%d: %v", s.agents[h].id.name, ac.id, err)
+			}
+			classes["host-turned-client"] = true
+			logf("host %s registers as a light client over conn#%d", s.agents[h].id.name, ac.id)
 		case "close":
 			oc := openConns()
 			if len(oc) == 0 {
